@@ -61,6 +61,7 @@ type HarnessCfg struct {
 }
 
 type PropCfg struct {
+	RegenCheck  bool                   `json:"regen_check"`
 	Generators  []string               `json:"generators"`
 	Description string                 `json:"description"`
 	Tiers       map[string]*TierCfg    `json:"tiers"`
@@ -205,6 +206,7 @@ type runner struct {
 	cfg      PropCfg
 	hfs      []harnessFile
 	tmp      string
+	regen    []regenResult
 	bins     map[string]string // dir -> test binary
 }
 
@@ -427,6 +429,24 @@ func (r *runner) run() int {
 	// classify
 	exit := 0
 	nviol := 0
+	var regen []regenResult
+	if r.cfg.RegenCheck && r.only == "" {
+		var err error
+		regen, err = r.regenCheck()
+		if err != nil {
+			inconc = append(inconc, "regeneration check: "+err.Error())
+		}
+		for _, g := range regen {
+			if g.Err != "" {
+				inconc = append(inconc, "regeneration check "+g.Dir+": "+g.Err)
+			} else if !g.Same {
+				nviol++
+				exit = 1
+				fmt.Printf("VIOLATION property=%s replay=%s\n  %s/generator/checked-in-equals-regenerated: %s/zz_generated.go differs from the output of the checked-in generator\n", r.id, g.Replay, r.id, g.Dir)
+			}
+		}
+		r.regen = regen
+	}
 	knownHit := map[string]bool{}
 	for _, c := range allViol {
 		switch c.status {
@@ -739,6 +759,11 @@ func cmdReplay(args []string) int {
 		fmt.Println("cannot read", args[0], err)
 		return 2
 	}
+	var kind map[string]string
+	if json.Unmarshal(data, &kind) == nil && kind["kind"] == "regen" {
+		abs, _ := filepath.Abs(args[0])
+		return replayRegen(abs, kind)
+	}
 	var rc replayCase
 	if err := json.Unmarshal(data, &rc); err != nil {
 		fmt.Println("bad replay file", err)
@@ -847,6 +872,9 @@ func (r *runner) writeEvidence(reports []*harnessReport, funcs map[string]int64,
 		"harnesses":                     reports,
 		"inconclusive":                  inconc,
 		"stubs":                         r.cfg.Stubs,
+	}
+	if r.regen != nil {
+		cov["generator_regeneration_byte_comparison_not_a_solver_query"] = r.regen
 	}
 	ev := map[string]interface{}{
 		"property_id": r.id,
